@@ -3,11 +3,34 @@ From Coq Require Import Ascii String List Bool ZArith NArith.
 From PTBase Require Import Exn PyStr PyNum PyVal Wire.
 From PTModel Require Import Fortran.
 From Gen Require Import GenFortran.
+From P Require Import Blanks IntRender Styles.
 Import ListNotations.
 
 Definition blank_marker : pyval := VStr (s2l "BLANK").
+(** the rendering functions of Styles.v / IntRender.v, so that the harness reads the very texts the
+    rendering theorems speak about through the real functions, and compares them with its own
+    independent Fortran-style formatter *)
+Definition is1 (f : str) : bool := str_eqb f (s2l "1").
+Definition gaps_of (f : str) : list nat := map nat_of_str (split_c ","%char f).
+Definition letter_of (f : str) : eletter :=
+  if str_eqb f (s2l "E") then LE else if str_eqb f (s2l "e") then Le else if str_eqb f (s2l "D") then LD else Ld.
+Definition plus_of (f : str) : plusstyle :=
+  if str_eqb f (s2l "+") then PPlus else if str_eqb f (s2l "b") then PBlank else PNothing.
+Definition exp_of (k l p w : str) : expstyle :=
+  if str_eqb k (s2l "L") then ELetter (letter_of l) (plus_of p) (nat_of_str w)
+  else if str_eqb k (s2l "D") then EDropped (nat_of_str w) else ENoExp.
+
 Definition run_case (line : str) : str :=
   match fields line with
+  | [k; ng; ds; e; pl; l0; sc; ek; el; ep; ew; gp] =>
+      if str_eqb k (s2l "rr") then
+        let x := {| rneg := is1 ng; rdigs := ds; rexp := z_of_str e |} in
+        let st := {| st_plus := is1 pl; st_lead0 := is1 l0; st_scale := nat_of_str sc; st_exp := exp_of ek el ep ew; st_gaps := gaps_of gp |} in
+        app (hex (render st x)) (tab :: show_fval (real_value x))
+      else s2l "BADCASE"
+  | [k; z; pl; m; gp] =>
+      if str_eqb k (s2l "ri") then hex (render_int (z_of_str z) (is1 pl) (nat_of_str m) (gaps_of gp))
+      else s2l "BADCASE"
   | [k; h] =>
       let s := unhex h in
       if str_eqb k (s2l "ff") then show_res (gen_fortran_float (VStr s) blank_marker)
